@@ -284,7 +284,7 @@ class C20(Check):
             ws.append({'call': 'classify', 'media_type': mt})
         alpha = ['a', 'x', 'm', 'l', '+', '/', 'text', 'application', 'xml', 'html', 'css', ' ', 'T', 'X', '-', '\n',
                  'é', 'É', '€', '.']
-        for _ in range(ctx.n(1500, 40000)):
+        for _ in range(ctx.n(1500, 100000)):
             ws.append({'call': 'classify', 'media_type': ''.join(rng.choice(alpha) for _ in range(rng.randint(1, 7)))})
         return ws
 
@@ -365,7 +365,7 @@ class C20(Check):
                  '<?xml version="1.0"?><x encoding="ascii"/><?pi ?>', '<?xml version="1.0"\nencoding="x"?>',
                  '<?xml version="1.0" encoding = "x"?>', '<?xml version="1.0" encoding="É"?>',
                  '<?xml version="1.0" encoding="a" encoding="b"?>', '<?xml version="1.0" encoding="a"?>\n<?p encoding="b"?>']
-        for _ in range(ctx.n(2500, 60000)):
+        for _ in range(ctx.n(2500, 150000)):
             docs.append(self.gen_doc(rng))
         ws = []
         long_decl = set(d for d in docs[:n_limit] if len(d) > 2000)
@@ -416,7 +416,7 @@ class C20(Check):
     def gen_info(self, ctx, rng):
         ws = []
         mts = [m for m, _ in MEDIA_TYPES] + ['text/xml+xml', 'application/octet-stream', 'x/y', 'text/HTML+xml']
-        for _ in range(ctx.n(2500, 60000)):
+        for _ in range(ctx.n(2500, 150000)):
             r = rng.random()
             cs = rng.choice([None, None] + ENC_NAMES)
             mt = rng.choice(mts) if rng.random() < 0.5 else rng.choice(['text/html', 'text/html', 'text/plain', 'application/xhtml+xml'])
